@@ -9,7 +9,8 @@
 From Coq Require Import Strings.String Strings.Byte.
 From Coq Require Import List Arith NArith ZArith Bool Lia.
 From Verif Require Import Base.Bytes Model.Threads Model.ConnLimiter Model.TokenBucket
-  Proofs.ThreadsProofs Proofs.ConnLimiterProofs Proofs.TokenBucketProofs.
+  Model.OverloaderConn
+  Proofs.ThreadsProofs Proofs.ConnLimiterProofs Proofs.TokenBucketProofs Proofs.OverloaderConnProofs.
 Import ListNotations.
 Local Open Scope Z_scope.
 
@@ -141,6 +142,94 @@ Theorem C18_session_end_without_disconnect_hook_refuted :
 Proof. exact end_without_hook_refuted. Qed.
 Print Assumptions C18_session_end_without_disconnect_hook_refuted.
 
+
+(* ---------------- Overloader.Update as an event of the history ---------------- *)
+
+(* The whole plugin (Model/OverloaderConn.v): Update(MaxConn) - limit raised, lowered,
+   removed (<= 0), re-created - is ONE event next to the connect / hook-step / verdict / close
+   / redial / retry / duplicate-disconnect events of any number of sessions; limiter
+   instances have identities, a session belongs to the instance whose pointer its hook read
+   and its release goes to that instance.  [oreach] = every history from the plugin as
+   overloader.New builds it.  In every reachable state EVERY limiter instance (current or
+   replaced) has now/tmp equal to the slots of its own sessions, never negative; the sessions
+   admitted through it are at most its counter and its bound, and at most its limit whenever
+   its holders fit. *)
+Theorem C18_update_history_every_instance : forall st g, oreach st ->
+  let s := inst st g in
+  c_now (l_c s) = sumz now_of (l_ss s) /\ c_tmp (l_c s) = sumz tmp_of (l_ss s) /\
+  0 <= c_now (l_c s) /\ 0 <= c_tmp (l_c s) /\
+  admitted s <= c_now (l_c s) /\ admitted s <= l_hw s /\
+  (c_tmp (l_c s) <= c_lim (l_c s) -> admitted s <= c_lim (l_c s)).
+Proof. exact update_history_every_instance. Qed.
+Print Assumptions C18_update_history_every_instance.
+
+(* ... and when none of its sessions is inside a hook, its counters are exactly the number
+   of live sessions it admitted (+ the dials a later plugin refused, the known finding). *)
+Theorem C18_update_history_instance_quiescent : forall st g, oreach st ->
+  let s := inst st g in
+  quiescent s ->
+  c_now (l_c s) = admitted s + leaked s /\ c_tmp (l_c s) = admitted s + leaked s.
+Proof. exact update_history_instance_quiescent. Qed.
+Print Assumptions C18_update_history_instance_quiescent.
+
+(* Sessions remember the instance that admitted them: whatever Updates happened since, a
+   session that appears in the books of instance g (drew a ticket, holds a slot, is live, is
+   being released ...) is recorded for g and is in the books of no other instance - so the
+   release at its end can only go to g. *)
+Theorem C18_session_belongs_to_one_instance : forall st g k, oreach st ->
+  s_pc (getn sess0 k (l_ss (inst st g))) <> LIdle ->
+  getn HNone k (o_where st) = HInst g /\
+  forall g', g' <> g -> s_pc (getn sess0 k (l_ss (inst st g'))) = LIdle.
+Proof. exact session_belongs_to_one_instance. Qed.
+Print Assumptions C18_session_belongs_to_one_instance.
+
+(* After any history the pointer agrees with the stored configuration: a limiter exists
+   exactly when the configured MaxConn is positive, and its limit is the configured value. *)
+Theorem C18_limit_is_configured : forall st, oreach st ->
+  match o_cur st with
+  | None => o_cfg st <= 0
+  | Some g => (g < length (o_gens st))%nat /\ 0 < o_cfg st /\ c_lim (l_c (inst st g)) = o_cfg st
+  end.
+Proof. exact limit_is_configured. Qed.
+Print Assumptions C18_limit_is_configured.
+
+(* Limit m at start and any history whose Updates raise or lower the limit but never remove
+   it: there is ONE instance and it counts every admitted session, so the TOTAL number of
+   admitted sessions is at most its bound, and at most the configured limit whenever the
+   holders fit under it (after a decrease: once enough of them have left). *)
+Theorem C18_total_admitted_without_limiter_removal : forall m tr st,
+  0 < m -> never_removed tr -> orun false oempty (OUpdate m :: tr) = Some st ->
+  o_cur st = Some 0%nat /\ oadmitted st = admitted (inst st 0) /\
+  oadmitted st <= l_hw (inst st 0) /\
+  (c_tmp (l_c (inst st 0)) <= o_cfg st -> oadmitted st <= o_cfg st).
+Proof. exact total_admitted_without_removal. Qed.
+Print Assumptions C18_total_admitted_without_limiter_removal.
+
+(* The hypothesis is needed: a limiter re-created by Update(0), Update(N) starts from zero
+   and does not count the sessions that live on (limit 1: A admitted, off, on(1), B
+   admitted: two sessions, configured limit 1, each instance within its own limit).
+   This is what HEAD does; the per-instance statement above is the one that holds. *)
+Theorem C18_total_admitted_across_recreation_refuted :
+  exists st, orun false oempty witness_recreate = Some st /\
+             oadmitted st = 2 /\ o_cfg st = 1 /\ o_cur st = Some 1%nat /\
+             admitted (inst st 0) = 1 /\ admitted (inst st 1) = 1 /\
+             c_lim (l_c (inst st 0)) = 1 /\ c_lim (l_c (inst st 1)) = 1.
+Proof. exact total_across_recreation_refuted. Qed.
+Print Assumptions C18_total_admitted_across_recreation_refuted.
+
+(* The variant whose releaseConnFor releases through the CURRENT limiter: limit 2, A and B
+   admitted, Update(0), Update(2), A and B end, then FOUR sessions are admitted through the
+   fresh instance whose limit is 2 (its counter says 2), and the replaced instance still
+   books the two sessions that are gone. *)
+Theorem C18_release_to_current_instance_refuted :
+  exists st, orun true oempty witness_release_to_current = Some st /\
+             let s := inst st 1 in
+             o_cfg st = 2 /\ c_lim (l_c s) = 2 /\ admitted s = 4 /\ oadmitted st = 4 /\
+             c_now (l_c s) = 2 /\ sumz now_of (l_ss s) = 4 /\
+             c_now (l_c (inst st 0)) = 2 /\ admitted (inst st 0) = 0.
+Proof. exact release_to_current_refuted. Qed.
+Print Assumptions C18_release_to_current_instance_refuted.
+
 (* ---------------- rate limit ---------------- *)
 
 (* Any window [tr] of any interleaving starting in any well-formed state: the takes
@@ -235,6 +324,20 @@ Theorem C18_rejected_gets_error_reply : forall total handler,
 Proof. exact hook_verdict. Qed.
 Print Assumptions C18_rejected_gets_error_reply.
 
+(* Overloader.Update on a rate limiter never refills: a limiter that existed before keeps
+   exactly its tokens (limit and refill amount are stored, 1 <= once <= limit as the
+   QSetOnce event of C18_bucket_bound requires); only a limiter that did not exist is
+   created, full; MaxQPS <= 0 removes it. *)
+Theorem C18_qps_update_never_refills : forall cur m iv b',
+  ov_update cur m iv = Some (Some b') ->
+  b_limit b' = m /\ 0 < b_once b' <= m /\
+  match cur with
+  | Some b => b_tokens b' = b_tokens b
+  | None => b_tokens b' = m
+  end.
+Proof. exact ov_update_no_refill. Qed.
+Print Assumptions C18_qps_update_never_refills.
+
 (* ---------------- non-vacuity ---------------- *)
 Example C18_example_reach :
   exists s, reach s /\ admitted s = 1 /\ quiescent s.
@@ -249,4 +352,20 @@ Example C18_example_bucket :
 Proof.
   eexists. eexists. split; [vm_compute; reflexivity|]. split; [|vm_compute; reflexivity].
   split; [vm_compute; reflexivity | repeat constructor].
+Qed.
+
+Example C18_example_oreach :
+  exists st, oreach st /\ oadmitted st = 2 /\ length (o_gens st) = 2%nat /\
+             quiescent (inst st 0) /\ quiescent (inst st 1).
+Proof.
+  eexists. split; [exists witness_recreate; vm_compute; reflexivity|].
+  split; [vm_compute; reflexivity|]. split; [vm_compute; reflexivity|].
+  split; vm_compute; repeat constructor.
+Qed.
+
+Example C18_example_without_removal :
+  exists st, orun false oempty (OUpdate 2 :: (o_admit 0 ++ [OUpdate 3; OUpdate 1] ++ o_end 0)) = Some st /\
+             never_removed (o_admit 0 ++ [OUpdate 3; OUpdate 1] ++ o_end 0) /\ o_cfg st = 1.
+Proof.
+  eexists. split; [vm_compute; reflexivity|]. split; [cbn; repeat split; lia | vm_compute; reflexivity].
 Qed.
